@@ -144,3 +144,5 @@ func verifSamePrimary(x, y value.Primary) bool {
 	return false
 }
 
+
+func verifEpoch() time.Time { return time.Unix(1328260695, 0).In(time.UTC) }
